@@ -3,18 +3,22 @@
 
   Case formats (tokens separated by single spaces; strings are hex of UTF-8, `-` = empty):
 
-    W <state>* | <word>            expand one word as a command argument (`probe <word>`, `set -f`)
+    W [ctx=<c>] <state>* | <word> (;; <word>)*
+                                   expand the word(s) in context c (`set -f`): arg (default) `probe w…`,
+                                   for `for v in w…; do probe "$v"; done`, arr `v=(w…)`, asg `v=w`,
+                                   exp `export v=w`, here `cat <<E` with the (text-unit) word as content
+    P [portable=1] | <hex>         what the braced-parameter lexer makes of `${<chars>`
     R <state>* raw=<0|1> n=<k> | <stdin hex>     `read [-r] v1 … vk` on the given standard input
     WS                             the set of white-space code points (tie to Rust `char::is_whitespace`)
 
     state := NAME=s<hex> | NAME=a<n>(:<hex>)* | NAME=U | !NAME=… (read-only) | nu=<0|1> | st=<n>
-           | pos=<n>(:<hex>)*
+           | pos=<n>(:<hex>)* | fl=<short option names> | pid=<n> ($$) | bg=<n> ($!, 0 = none)
              (IFS starts as " \t\n"; `IFS=U` unsets it)
     word  := unit*
-    unit  := L<hex> | B<hex> | S<hex> | D[ tunit* ] | tunit
+    unit  := L<hex> | B<hex> | S<hex> | Q<hex> ($'…', unquoted content) | D[ tunit* ] | tunit
     tunit := L<hex> | B<hex> | $<param> | {<param> modifier }
     modifier := ε | len | sw[:](-|=|?|+) unit* | tr(#|##|%|%%) unit*
-    param := name | @ | * | # | ? | 0 | <positive number>
+    param := name | @ | * | # | ? | - | $ | ! | 0 | <digits> (positional, `00` = index 0)
 
   Observation of W: `n=<count> f=<hex>,…` or `err=<class>`, then ` v=<name>:<value>,…` for the
   variables x y e u r.  Observation of R: `st=<exit status> v=v1:<hex>,…`.
